@@ -459,6 +459,57 @@ def extract_fname(cls):
     return pieces
 
 
+def extract_ondemand(cls):
+    """get_efield / get_hfield -> compute(source=, frequency=) -> _compute([(source, frequency)]):
+    the on-demand task is keyed by the very (source, frequency) whose slot is read back."""
+    def meth(name):
+        m = next((n for n in cls.body if isinstance(n, ast.FunctionDef) and n.name == name), None)
+        if m is None:
+            raise ShapeError(f'Simulation.{name} not found')
+        return m
+    ok = True
+    comp = meth('compute')
+    pops = {}
+    for n in ast.walk(comp):
+        if (isinstance(n, ast.Assign) and len(n.targets) == 1 and isinstance(n.targets[0], ast.Name)
+                and isinstance(n.value, ast.Call) and _src(n.value.func) == 'kwargs.pop'
+                and n.value.args and isinstance(n.value.args[0], ast.Constant)):
+            pops[n.targets[0].id] = n.value.args[0].value
+    calls = [n for n in ast.walk(comp) if isinstance(n, ast.Call) and _src(n.func) == 'self._compute']
+    if len(calls) != 1 or len(calls[0].args) != 1:
+        ok = False
+    else:
+        a = calls[0].args[0]
+        if not (isinstance(a, ast.List) and len(a.elts) == 1 and isinstance(a.elts[0], ast.Tuple)
+                and len(a.elts[0].elts) == 2
+                and all(isinstance(e, ast.Name) for e in a.elts[0].elts)
+                and [pops.get(e.id) for e in a.elts[0].elts] == ['source', 'frequency']):
+            ok = False
+    for name in ('get_efield', 'get_hfield'):
+        m = meth(name)
+        args = [x.arg for x in m.args.args]
+        if args != ['self', 'source', 'frequency']:
+            ok = False
+            continue
+        fk = [n for n in m.body if isinstance(n, ast.Assign) and len(n.targets) == 1
+              and isinstance(n.targets[0], ast.Name)
+              and _src(n.value) == 'self._freq_inp2key(frequency)']
+        if len(fk) != 1:
+            ok = False
+            continue
+        fv = fk[0].targets[0].id
+        cc = [n for n in ast.walk(m) if isinstance(n, ast.Call) and _src(n.func) == 'self.compute']
+        if len(cc) != 1 or cc[0].args or \
+                sorted((k.arg, _src(k.value)) for k in cc[0].keywords) != \
+                [('frequency', fv), ('source', 'source')]:
+            ok = False
+        reads = [n for n in ast.walk(m) if isinstance(n, ast.Call)
+                 and _src(n.func) == 'self._dict_get']
+        if not reads or any([_src(x) for x in r.args] != ["'efield'", 'source', fv] for r in reads):
+            ok = False
+    return ok
+
+
 def extract_shapes(repo=None):
     repo = repo or V.REPO
     mp_src = open(os.path.join(repo, 'emg3d', '_multiprocessing.py')).read()
@@ -471,7 +522,8 @@ def extract_shapes(repo=None):
         raise ShapeError('class Simulation not found')
     return dict(branches=extract_process_map(mp),
                 sites=[extract_store_site(cls, n) for n in ('_compute', '_bcompute', 'jvec')],
-                srcfreq=extract_srcfreq(cls), fname=extract_fname(cls))
+                srcfreq=extract_srcfreq(cls), fname=extract_fname(cls),
+                ondemand=extract_ondemand(cls))
 
 
 def _cstr(s):
@@ -516,6 +568,10 @@ def render_mpshape(sh):
     sf = sh['srcfreq']
     L.append("Definition srcfreq_shape : product_shape := "
              + (sf[0] if len(sf) == 1 else f"ProdOther {_cstr(sf[1])}") + ".")
+    L.append("")
+    L.append("(* get_efield/get_hfield -> compute(source=, frequency=) -> _compute([(source, frequency)]):")
+    L.append("   the on-demand task and the slot read back carry the same (source, frequency) *)")
+    L.append("Definition ondemand_keys_ok : bool := " + ('true' if sh.get('ondemand') else 'false') + ".")
     L.append("")
     L.append("(* f-string of Simulation._data_or_file *)")
     L.append("Definition fname_pattern : list fpiece := ["
@@ -1416,6 +1472,110 @@ def tol_sequence_hits(rng, configs, hist=None):
     return hits
 
 
+# ---- on-demand computations in file mode ----
+def _slot_digests(sim, tag, digs, hfield=False):
+    for (s_, f_) in sim._srcfreq:
+        digs[f"{tag}:efield[{s_}][{f_}]"] = _bytes(sim.get_efield(s_, f_).field)
+        digs[f"{tag}:efield.freq[{s_}][{f_}]"] = repr(complex(sim.get_efield(s_, f_).frequency))
+        if hfield:
+            digs[f"{tag}:hfield[{s_}][{f_}]"] = _bytes(sim.get_hfield(s_, f_).field)
+
+
+def run_ondemand_history(spec, max_workers, file_dir, obs, which, order):
+    """Histories in which source-frequency tasks are computed ON DEMAND.
+    which='get': fresh simulation, get_efield / get_hfield for the pairs in `order`
+                 (freshly computed one at a time), then every requested slot is read back;
+    which='keepresults': compute, misfit, clean('keepresults'), gradient, jvec, then every
+                 slot is read back."""
+    fd = tempfile.mkdtemp(prefix='c11_od_') if file_dir else None
+    try:
+        with _TqdmMasked(False):
+            sim = build_sim(spec, max_workers, fd)
+            digs = {}
+            if which == 'get':
+                keys = sim._srcfreq
+                for j, idx in enumerate(order):
+                    s_, f_ = keys[idx % len(keys)]
+                    if j % 3 == 2:
+                        digs[f"first:hfield[{s_}][{f_}]"] = _bytes(sim.get_hfield(s_, f_).field)
+                    else:
+                        digs[f"first:efield[{s_}][{f_}]"] = _bytes(sim.get_efield(s_, f_).field)
+                for idx in sorted(set(i % len(keys) for i in order)):      # read back later
+                    s_, f_ = keys[idx]
+                    e = sim.get_efield(s_, f_)
+                    digs[f"later:efield[{s_}][{f_}]"] = _bytes(e.field)
+                    digs[f"later:efield.freq[{s_}][{f_}]"] = repr(complex(e.frequency))
+            else:
+                sim.compute()
+                sim.survey.data['observed'][...] = obs
+                digs['misfit'] = float(sim.misfit).hex()
+                sim.clean('keepresults')
+                digs['gradient'] = _bytes(sim.gradient)
+                vec = np.random.RandomState(spec['vec_seed'] % 2**31).randint(
+                    -8, 9, sim.model.shape) / 8.0
+                digs['jvec'] = _bytes(sim.jvec(vec))
+                _slot_digests(sim, 'later', digs)
+                digs['synthetic'] = _bytes(sim.data.synthetic.data)
+            return digs
+    except Exception as e:      # noqa
+        return {'raised': type(e).__name__ + ': ' + str(e)[:300]}
+    finally:
+        if fd:
+            shutil.rmtree(fd, ignore_errors=True)
+
+
+ONDEMAND_PLANS = [('get', [3, 0]), ('get', [1, 2, 0]), ('keepresults', []), ('get', [2, 3, 1, 0])]
+
+
+def ondemand_hits(rng, plans, workers=(1,), hist=None):
+    """File-based on-demand histories against the same history in memory and against
+    the plain sequential compute, slot by slot, bit for bit."""
+    spec = gen_survey_spec(rng, dims=(2, 2, 2))
+    spec['shape'] = [4, 4, 4]
+    spec['h'] = [[200.0] * 4, [200.0] * 4, [200.0] * 4]
+    spec['prop'] = (spec['prop'] * 2)[:64]
+    spec['aniso'] = 'isotropic'
+    full = build_sim(spec, 1, None)
+    full.compute()
+    obs = full.data.synthetic.data.copy() * spec['obs_scale']
+    own = {}
+    _slot_digests(full, 'later', own)
+    hits = []
+    for which, order in plans:
+        ref = run_ondemand_history(spec, 1, False, obs, which, order)
+        for mw in workers:
+            digs = run_ondemand_history(spec, mw, True, obs, which, order)
+            if hist is not None:
+                hist['sim:ondemand/file'] = hist.get('sim:ondemand/file', 0) + 1
+            bad = []
+            if 'raised' in digs:
+                bad.append('history raised ' + digs['raised'])
+            else:
+                bad += [k + ' differs from the same history in memory'
+                        for k in ref if digs.get(k) != ref[k]][:5]
+                bad += [k + ' is not the field of its own task (plain sequential compute)'
+                        for k in digs if k in own and digs[k] != own[k]][:5]
+            if 'raised' not in ref:
+                bad += ['in memory: ' + k + ' is not the field of its own task'
+                        for k in ref if k in own and ref[k] != own[k]][:3]
+            if bad:
+                keys = [list(k) for k in full._srcfreq]
+                hist_txt = (['get_hfield' + str(tuple(keys[i % 4])) if j % 3 == 2
+                             else 'get_efield' + str(tuple(keys[i % 4]))
+                             for j, i in enumerate(order)] + ['read every requested slot back']
+                            if which == 'get' else
+                            ['compute', 'misfit', "clean('keepresults')", 'gradient', 'jvec',
+                             'get_efield of every slot'])
+                hits.append({'signature': 'simulation result depends on execution configuration',
+                             'kind': 'ondemand', 'spec': spec, 'which': which, 'order': order,
+                             'config': {'max_workers': mw, 'file_dir': True},
+                             'history': hist_txt, 'observed': '; '.join(bad[:6]),
+                             'required': 'every slot read back = field of its own task, '
+                                         'bit-identical to the in-memory run of the same history'})
+                return hits
+    return hits
+
+
 def correspondence_sim(ctx, dis, hist):
     nsurv = 4 if ctx.thorough else 2
     runs, perturbed, samples, distinct = 0, 0, [], set()
@@ -1483,6 +1643,15 @@ def correspondence_sim(ctx, dis, hist):
                     'impl': h['observed'], 'model': h['required'], 'spec_full': h['spec']})
     runs += 2
     distinct.add(('sized_grids',))
+    # on-demand computations in file mode
+    for h in ondemand_hits(ctx.rng, ONDEMAND_PLANS if ctx.thorough else ONDEMAND_PLANS[:3],
+                           (1, 2) if ctx.thorough else (1,), hist):
+        dis.append({'what': 'file_dir, tasks computed on demand: ' + h['observed'][:300],
+                    'signature': h['signature'],
+                    'case': {'history': h['history'], 'config': h['config']},
+                    'impl': h['observed'], 'model': h['required'], 'spec_full': h['spec']})
+    runs += 3
+    distinct.add(('ondemand',))
     # runs of different kinds on one simulation, tol != tol_gradient
     for h in tol_sequence_hits(ctx.rng, [(1, True)] + ([(2, True), (2, False)] if ctx.thorough
                                                        else []), hist):
@@ -1608,6 +1777,9 @@ def search(ctx, broken):
                 break
         if hits:
             break
+    # 1a. tasks computed on demand in file mode
+    if not hits:
+        hits += ondemand_hits(rng, ONDEMAND_PLANS, (1, 2))
     # 1b. runs of different kinds with tol != tol_gradient, memory and file based
     if not hits:
         hits += tol_sequence_hits(rng, [(1, True), (2, True), (2, False)])
@@ -1664,6 +1836,9 @@ def replay(ctx, payload):
         obs, ref = reference(spec)
         digs, _ = run_sim_config(spec, cfg, obs)
         return not compare_digests(ref[cfg['what']], digs)
+    if fi.get('kind') == 'ondemand':
+        return not ondemand_hits(ctx.rng, [(fi['which'], fi['order'])],
+                                 (fi['config']['max_workers'],))
     if fi.get('kind') == 'tol_sequence':
         c = fi['config']
         return not tol_sequence_hits(ctx.rng, [(c['max_workers'], c['file_dir'])])
